@@ -3,7 +3,7 @@ import itertools
 import struct
 
 from vf import gen, shadow as SH, sim as S
-from vf.ref import codec, ikecrypto, negotiate, party
+from vf.ref import xfrmdec, codec, ikecrypto, negotiate, party
 from vf.checks import c02
 
 import ikesa as r_ikesa
@@ -417,6 +417,96 @@ def tampered(ck, rng, vi):
         ck.violation(f'loop-died-on-tampered-response:{label}', {'exc': repr(died[0].exc)}, sim.case)
 
 
+FOREIGN_ATTRS = [(17408, 256), (17408, 128), (16384, 192), (32767, 256), (15, 256), (13, 128), (17, 256), (1, 256)]
+
+
+def foreign_attributes(ck, rng, i):
+    """An independent INITIATOR whose transforms carry, besides Key Length, TV attributes this daemon cannot know (RFC 7296 3.3.5: the attribute space is
+    extensible, 16384-32767 private use). A transform's identity is (type, id, KEY LENGTH attribute): whatever the responder does with such a transform
+    (ignore the extra attribute, or refuse the transform), a suite it chooses must be present in the offer and in its own policy."""
+    pol = [('aes256',), ('aes128',), ('aes256', 'aes128'), ('aes128', 'aes256')][i % 4]
+    cpol = [('aes256',), ('aes128',)][(i // 4) % 2]
+    conf = dict(ike_b={'encr': list(pol), 'integ': ['sha256'], 'prf': ['sha256'], 'dh': ['19']}, child_b={'encr': list(cpol), 'integ': ['sha256'], 'dh': []})
+    sim, a, b = S.make_pair(ck.seed * 17 + i, **conf)
+    sim.case = {'family': 'foreign-attributes', 'ike_policy': pol, 'child_policy': cpol}
+    p = party.RefParty(S.A4, S.B4, rng)
+
+    def deco(keylen):
+        t = {'type': 1, 'id': 12, 'keylen': keylen}
+        extra = [rng.choice(FOREIGN_ATTRS) for _ in range(rng.randrange(1, 3))]
+        t['tv_before' if rng.random() < 0.4 else 'tv_after'] = extra
+        return t
+    offered_ike = rng.choice([[128], [256], [128, 256], [256, 128], [192]])
+    trs = [deco(k) for k in offered_ike] + [{'type': 3, 'id': 12, 'keylen': None}, {'type': 2, 'id': 5, 'keylen': None}, {'type': 4, 'id': 19, 'keylen': None}]
+    sim.case['ike_offer'] = [(t['id'], t['keylen'], t.get('tv_before'), t.get('tv_after')) for t in trs if t['type'] == 1]
+    died = []
+    sim.monitors.append(lambda s_, ep, rec: died.append(rec) if rec.died else None)
+    sim.inject(b, S.A4, S.B4, p.init_request(trs, 19))
+    ck.count('foreign_attrs.ike_offers')
+    ck.nontrivial(('foreign-attrs', i))
+    if died:
+        ck.violation('loop-died-on-transform-with-unknown-attribute', {'exc': repr(died[0].exc)}, sim.case)
+        return
+    if not sim.net:
+        ck.count('foreign_attrs.no_answer')
+        return
+    res = sim.net.pop(0).data
+    m = codec.decode(res, strict_bodies=False)
+    sa = next((x for x in m['payloads'] if x['type'] == codec.SA), None)
+    want_keylens = {256: 'aes256', 128: 'aes128'}
+    common = [k for k in offered_ike if want_keylens.get(k) in pol]
+    if sa is None:
+        ck.count('foreign_attrs.ike_refused')
+        if b.ctl.ike_sas:
+            ck.violation('ike-sa-kept-although-the-offer-was-refused', {'table': len(b.ctl.ike_sas)}, sim.case)
+        return
+    got = [(t['type'], t['id'], t['keylen']) for t in sa['proposals'][0]['transforms']]
+    ck.count('foreign_attrs.ike_chosen')
+    enc = [t for t in got if t[0] == 1]
+    if len(enc) != 1 or enc[0][1] != 12 or enc[0][2] not in common:
+        ck.violation('responder-chose-a-key-length-the-peer-never-offered:ike', {'chosen': got, 'offered_key_lengths': offered_ike, 'policy': pol}, sim.case)
+        return
+    if not p.take_init_response(res):
+        return
+    offered_child = rng.choice([[128], [256], [128, 256], [256, 128]])
+    ctrs = [deco(k) for k in offered_child] + [{'type': 3, 'id': 12, 'keylen': None}, {'type': 5, 'id': 0, 'keylen': None}]
+    sim.case['child_offer'] = [(t['id'], t['keylen'], t.get('tv_before'), t.get('tv_after')) for t in ctrs if t['type'] == 1]
+    a4, b4 = bytes([192, 0, 2, 1]), bytes([192, 0, 2, 2])
+    pc = list(b.conf.ike_configurations.values())[0].protect[0]
+    ipp = int(pc.my_ts.ip_proto)
+    tsi = [{'tstype': 7, 'ipproto': ipp, 'sport': 0, 'eport': 65535, 'saddr': a4, 'eaddr': a4}]
+    tsr = [{'tstype': 7, 'ipproto': ipp, 'sport': 0, 'eport': 65535, 'saddr': b4, 'eaddr': b4}]
+    n0 = c02.newsa_count(b)
+    sim.inject(b, S.A4, S.B4, p.auth_request(c02.ID_A[0], c02.ID_A[1], 2, p.auth_psk(c02.PSK_A, *c02.ID_A), ctrs, 3, tsi, tsr, int(pc.mode) == 0))
+    if died:
+        ck.violation('loop-died-on-transform-with-unknown-attribute', {'exc': repr(died[0].exc)}, sim.case)
+        return
+    ccommon = [k for k in offered_child if want_keylens.get(k) in cpol]
+    new = [r_ for r_ in b.kernel.requests if r_['msg'] and r_['msg']['name'] == 'NEWSA'][n0:]
+    ck.count('foreign_attrs.child_offers')
+    rsa = None
+    if sim.net:
+        try:
+            _h, inner, _i = p.open(sim.net.pop(0).data)
+            rsa = next((x for x in inner if x['type'] == codec.SA), None)
+        except ikecrypto.NotProtected:
+            pass
+    if rsa is not None:
+        got = [(t['type'], t['id'], t['keylen']) for t in rsa['proposals'][0]['transforms']]
+        enc = [t for t in got if t[0] == 1]
+        ck.count('foreign_attrs.child_chosen')
+        if len(enc) != 1 or enc[0][2] not in ccommon:
+            ck.violation('responder-chose-a-key-length-the-peer-never-offered:child', {'chosen': got, 'offered_key_lengths': offered_child, 'policy': cpol}, sim.case)
+    else:
+        ck.count('foreign_attrs.child_refused')
+    for r_ in new:
+        alg = r_['msg']['attrs'].get(xfrmdec.XFRMA_ALG_CRYPT) or {}
+        bits = alg.get('key_bits')
+        ck.count('foreign_attrs.newsa_checked')
+        if not ccommon or bits not in ccommon:
+            ck.violation('kernel-sa-installed-with-a-key-length-the-peer-never-offered', {'bits': bits, 'offered_key_lengths': offered_child, 'policy': cpol}, sim.case)
+
+
 KE_SWEEP_CONFS = [
     # transform ids of the OTHER registries collide numerically with group numbers: INTEG sha512 = 14, sha256 = 12, sha1 = 2; PRF sha512 = 7, sha256 = 5; ENCR aes = 12
     dict(ike_a={'encr': ['aes256'], 'integ': ['sha512'], 'prf': ['sha512'], 'dh': ['19', '20']}, child_a={'encr': ['aes256'], 'integ': ['sha512'], 'dh': ['19', '20']}),
@@ -498,6 +588,9 @@ def run(ck):
     for i in range(240 if not ck.thorough() else 30000):
         if ck.mine(i):
             end_to_end(ck, ck.rng('e2e', i), i)
+    for i in range(64 if not ck.thorough() else 4000):
+        if ck.mine(i // 8):
+            foreign_attributes(ck, ck.rng('fattr', i), i)
     for rep in range(1 if not ck.thorough() else 40):
         for vi in range(34):
             if ck.mine(vi + rep):
@@ -517,6 +610,9 @@ def verdict(ck):
     ck.floor('INVALID_KE_PAYLOAD suggestions swept (configuration x exchange x group)', len(ck.sets['ke_sweep.cases']), 300)
     ck.floor('suggestions of an offered group that must be followed', c['ke_sweep.must_retry'], 10)
     ck.floor('end-to-end handshakes with COOKIEs demanded', c['e2e.handshakes_under_cookie_mode'], 40)
+    ck.floor('offers whose transforms carry unknown attributes: IKE suites chosen', c['foreign_attrs.ike_chosen'], 15)
+    ck.floor('offers whose transforms carry unknown attributes: refused', c['foreign_attrs.ike_refused'] + c['foreign_attrs.child_refused'], 8)
+    ck.floor('offers whose transforms carry unknown attributes: kernel SAs compared', c['foreign_attrs.newsa_checked'], 20)
     ck.floor('IKE_SA rekey selections compared', c['e2e.ike_rekey_selection_compared'], 150)
     ck.floor('INVALID_KE_PAYLOAD replies seen', c['e2e.invalid_ke_seen'] + c['e2e.child_invalid_ke'], 20)
     ck.floor('NO_PROPOSAL_CHOSEN outcomes seen', c['e2e.no_proposal_chosen_seen'] + c['e2e.child_no_proposal_chosen'], 10)
